@@ -32,7 +32,8 @@ def _c_statements(code):
     a `;` outside parentheses.  Raises ValueError if the text is not a sequence
     of `;`-terminated assignments `<lvalue> = <expression>` (C has no
     line-based statement end: a missing `;` merges two assignments)."""
-    text = '\n'.join(line.split('//', 1)[0] for line in code.splitlines())
+    text = re.sub(r'/\*.*?\*/', ' ', code, flags=re.S)
+    text = '\n'.join(line.split('//', 1)[0] for line in text.splitlines())
     stmts, cur, depth = list(), list(), 0
     for ch in text:
         if ch == '(':
